@@ -38,7 +38,13 @@ def _data(t):
     if isinstance(d, dict):
         if "rng" in d:
             rng = np.random.default_rng(d["rng"])
-            return rng.integers(d["lo"], d["hi"] + 1, size=n).astype(dt)
+            a = rng.integers(d["lo"], d["hi"] + 1, size=n).astype(dt)
+            if d.get("zero_filters"):        # structured sparsity: whole output filters (axis 0) set to zero
+                a = a.reshape(t["shape"])
+                for lo, hi in d["zero_filters"]:
+                    a[lo:hi] = d.get("zero_value", 0)
+                a = a.reshape(-1)
+            return a
         if "fill" in d:
             return np.full(n, d["fill"], dtype=dt)
         if "iota" in d:
